@@ -128,7 +128,7 @@ def c02(tier, seed):
 
 # ---------------------------------------------------------------- split parity (C17)
 def c17(tier, seed):
-    return _c17(tier, seed) + [o for o in openmode_obs() if o.name in ('parity.open.readonly', 'parity.create.sizes')]
+    return _c17(tier, seed) + [o for o in openmode_obs() if o.name in ('parity.open.readonly', 'parity.create.sizes')] + [o for o in header_obs() if o.name == 'state.header.roundtrip'] + parityrec_obs()
 
 
 def _c17(tier, seed):
@@ -856,7 +856,7 @@ def c06(tier, seed):
            solver=KISSAT, defs={'ND': 3 if tier == 'thorough' else 2}, timeout=3000, mem=8, cost=40, replay=False, kind='bounded', bound='2 disk slots (thorough: 3)',
            functions=['state_sync_process: region "proceed with the parity" .. "finally schedule parity write" (cmdline/sync.c, extracted mechanically)'],
            note='every combination of error / I/O error / silent / fixed / needs-update / rehash flags, block states and presence on 3 disks; callees replaced by recording contracts (dfcc)'),
-    ] + sync_fixchk_obs() + fs_obs() + fstree_obs() + scanalloc_obs() + holeruns_obs()
+    ] + sync_fixchk_obs() + fs_obs() + fstree_obs() + scanalloc_obs() + holeruns_obs() + blockruns_obs()
 
 
 def c05(tier, seed):
@@ -1024,11 +1024,11 @@ PAR_READ_Q = dict(region='par_read_q', file='cmdline/state.c', begin="} else if 
 
 
 def parityrec_obs():
-    return [Ob('state.parity_records.roundtrip.l%d.s%d%d' % (lv, s0, s1), 'harness/h_parityrec.c', 'h_parity_records', inject=[PAR_WRITE, PAR_READ_P, PAR_READ_Q], defs={'PR_LEVEL': lv, 'PR_S0': s0, 'PR_S1': s1},
+    return [Ob('state.parity_records.roundtrip.l%d.s%d%d%s' % (lv, s0, s1, '.format2' if v2 else ''), 'harness/h_parityrec.c', 'h_parity_records', inject=[PAR_WRITE, PAR_READ_P, PAR_READ_Q], defs={'PR_LEVEL': lv, 'PR_S0': s0, 'PR_S1': s1, 'PR_V2': v2},
                unwind=6, small_path=True, timeout=600, mem=8, cost=4, kind='bounded', bound='%d parity level(s) with %s split(s), one-letter uuids' % (lv, '/'.join(map(str, (s0, s1)[:lv]))),
                functions=["state_write_thread: region 'for each parity' (cmdline/state.c, extracted mechanically)", "state_read_content: branches of the 'P' and 'Q' records (extracted)"],
                note='every block count (32 bit), every split size (64 bit), uuid letter, format 2 or 3; reader against the same configuration; pathcpy / lev_config_name by stub')
-            for lv, s0, s1 in ((1, 1, 1), (1, 2, 1), (2, 2, 1), (2, 1, 2))]
+            for lv, s0, s1, v2 in ((1, 1, 1, 0), (1, 1, 1, 1), (2, 1, 1, 1), (1, 2, 1, 0), (2, 2, 1, 0), (2, 1, 2, 0))]
 
 
 INFO_WRITE = dict(region='info_write', file='cmdline/state.c', begin='/* write the info for each block */', end="sputc('N', f);", end_first_after=True, max_lines=70, expect_loops=2,
